@@ -253,6 +253,39 @@ func (c *Coordinator) gcTargets(changeAbleShards []*shardInfo, active map[uint64
 	}
 }
 
+// recoverOrphanTransfers turns an in_transfer copy back to normal when no other shard holds the
+// target any more: its destination never received it or was removed (e.g. by scaling down), so
+// the transfer can not complete and the copy would stay in_transfer for ever.
+// It only acts when every shard is reachable, the destination may be on a shard we can not see now
+func (c *Coordinator) recoverOrphanTransfers(shards []*shardInfo) {
+	for _, s := range shards {
+		if !s.changeAble {
+			return
+		}
+	}
+
+	for _, s := range shards {
+		for h, tar := range s.scraping {
+			if tar.TargetState != target.StateInTransfer {
+				continue
+			}
+
+			alone := true
+			for _, other := range shards {
+				if other != s && other.scraping[h] != nil {
+					alone = false
+					break
+				}
+			}
+
+			if alone {
+				c.log.Infof("target %d on %s is in_transfer but no other shard has it, back to normal", h, s.shard.ID)
+				tar.TargetState = target.StateNormal
+			}
+		}
+	}
+}
+
 // alleviateShards try remove some targets from shards to alleviate shard burden
 func (c *Coordinator) alleviateShards(changeAbleShards []*shardInfo) space {
 	needSpace := space{}
